@@ -80,6 +80,10 @@ def model_input(case: dict, real: list[str]):
         # on an eager-task loop a task's first step runs inside start_soon(): the (loop turn, task) bookkeeping that tells
         # the trace labels rs / wk apart no longer identifies the model's atomic steps: oracle only
         return None
+    if len(real) > 4000 and int(core.case_digest(case)[:4], 16) % 6:
+        # very long queues (thousands of datagrams): the model's queue operations are linear in the queue length, one run
+        # costs seconds: five out of six of these go to the oracle only
+        return None
     ops: list[str] = []
     for ln in real_for_diff(case, real):
         k = ln.split()[0]
@@ -304,6 +308,12 @@ def corpus() -> list[dict]:
     for n, naddr in ((1350, 1), (1350, 3), (2100, 2)):
         cs.append({"api": "low", "naddr": naddr, "early": [[i % naddr, f"{i % 251:02x}{i // 251:02x}"] for i in range(n)], "progs": {},
                    "script": [[["a", 0, "ffa0"]], [["a", naddr - 1, "ffa1"]], [], []], "never": []})
+    # a queue far beyond any plausible internal bound behind ONE address whose generator waits (more than 4096 datagrams), then the
+    # generator goes on: every queued datagram is handled, in order; the neighbour is served meanwhile
+    for n in (4200, 5000, 9000):
+        cs.append({"api": "low", "naddr": 2, "early": [], "progs": {"0": [[{"s": 1, "do": "y"}]]},
+                   "script": [[["a", 0, "01"]], [["a", 0, f"{i % 250:02x}"] for i in range(n)] + [["a", 1, "0a"]], [["g", 0]], [], []],
+                   "never": []})
     # fixed defect (/repo 14674d9): eager task factory + a long queue behind a waiting generator, successors that never suspend:
     # one nested call per queued datagram -> RecursionError from about 165 datagrams on (docs/C16-fix-1-repro.py)
     for n in (170, 200, 400):
@@ -562,10 +572,23 @@ def _with_eager(rng, case: dict) -> dict:
     return case
 
 
+def _long_queue_case(rng) -> dict:
+    """ONE address accumulates a queue of a size around a power of two (up to ~10 000) behind its waiting generator while a
+    neighbour is served; then the generator goes on (long-lived, or short-lived ones that restart): nothing may be dropped"""
+    n = rng.choice([255, 256, 257, 1023, 1024, 1025, 2048, 4095, 4096, 4097, 4098, 8191, 8192, 8193, rng.randint(300, 10000)])
+    api = rng.choice(["low", "low", "high"])
+    first = [{"s": 1, "do": "y"}] if rng.random() < 0.5 else [{"s": 1, "do": "r"}]
+    rest = [[{"s": 0, "do": "y"}] * rng.choice([1, 3, 50]) + [{"s": 0, "do": "r"}]] * 4
+    turns = [[["a", 0, "01"]], [["a", 0, f"{i % 250:02x}"] for i in range(n)] + [["a", 1, "0a"]], [["g", 0]], [["a", 0, "fb"]], []]
+    return {"api": api, "naddr": 2, "early": [], "progs": {"0": [first] + rest}, "script": turns, "never": []}
+
+
 def generate(rng, tier: str, boost: int):
     n = (3000 if tier == "quick" else 20000) * boost
     erng = core.sub_rng(rng.getrandbits(32), "c16-eager")
     for i in range(n):
+        if i % 250 == 11:
+            yield _long_queue_case(rng)
         yield _with_eager(erng, _dense_case(rng) if rng.random() < 0.4 else _rand_case(rng))
         if i % 10 == 3:
             yield _with_eager(erng, _cancel_end_case(rng))
